@@ -257,6 +257,8 @@ func checkC09(c *Ctx) {
 
 	// C09.8b a vote from a replica whose BLS proof of possession does not verify never counts (shared with C02.5/pop)
 	c.importFrom(checkC02, "C09.8", "C02.5/pop", "C02.6")
+	// the overlap tests that keep a vote from being merged twice (Combine, CanMergeContributions) rest on Contains
+	c.importFrom(checkC19, "C09.8", "C19.1")
 
 	// C09.8 duplicate signers inside one signature (shared with C02.4)
 	for _, scheme := range []string{"ECDSA", "EDDSA"} {
